@@ -12,7 +12,7 @@ open LyModel LyModel.Tree
 
 /-! ### `findIdxFrom`, `findForApply` -/
 
-theorem findIdxFrom_eq (p : DNode → Bool) (l : List DNode) (k : Nat) :
+theorem findIdxFrom_eq13 (p : DNode → Bool) (l : List DNode) (k : Nat) :
     findIdxFrom (fun x _ => p x) l k = (l.findIdx? p).map (· + k) := by
   induction l generalizing k with
   | nil => rfl
@@ -23,15 +23,15 @@ theorem findIdxFrom_eq (p : DNode → Bool) (l : List DNode) (k : Nat) :
     · rw [ih]
       cases List.findIdx? p xs <;> simp [Nat.add_assoc, Nat.add_comm 1 k]
 
-theorem findForApply_eq (S : Schema) (l : List DNode) (d : DNode) :
+theorem findForApply_eq13 (S : Schema) (l : List DNode) (d : DNode) :
     findForApply S l d = l.findIdx? (matchP S d) := by
   unfold findForApply matchP isLL
   split
   · rename_i h
-    rw [findIdxFrom_eq]
+    rw [findIdxFrom_eq13]
     simp [h]
   · rename_i h
-    rw [findIdxFrom_eq]
+    rw [findIdxFrom_eq13]
     have : (S.isKind d.sid SKind.list || S.isKind d.sid SKind.leaflist) = false := by simpa using h
     simp [this]
 
@@ -99,7 +99,7 @@ theorem insertNode_eq (S : Schema) (l : List DNode) (n : DNode) :
 
 /-! ### instance equality -/
 
-theorem keysEq_refl (l : List DNode) : keysEq l l = true := by
+theorem keysEq_refl13 (l : List DNode) : keysEq l l = true := by
   induction l with
   | nil => rfl
   | cons x xs ih => simp [keysEq, ih]
@@ -127,10 +127,10 @@ theorem keysEq_trans {a b c : List DNode} (h1 : keysEq a b = true) (h2 : keysEq 
         simp only [keysEq, Bool.and_eq_true, beq_iff_eq] at h1 h2 ⊢
         exact ⟨⟨h1.1.1.trans h2.1.1, h1.1.2.trans h2.1.2⟩, ih h1.2 h2.2⟩
 
-theorem sameInst_refl (S : Schema) (a : DNode) : sameInst S a a = true := by
+theorem sameInst_refl13 (S : Schema) (a : DNode) : sameInst S a a = true := by
   unfold sameInst
   simp only [beq_self_eq_true, Bool.true_and]
-  split <;> simp [keysEq_refl]
+  split <;> simp [keysEq_refl13]
 
 theorem sameInst_sid {S : Schema} {a b : DNode} (h : sameInst S a b = true) : a.sid = b.sid := by
   unfold sameInst at h
@@ -271,7 +271,7 @@ def ordOf (S : Schema) (K : KeyOrder S) : KL.Ord DNode where
       · exact Or.inr (Or.inl h)
   same_refl := by
     intro x hx
-    simp [matchP, instMatch_eq hx.ndi, sameInst_refl]
+    simp [matchP, instMatch_eq hx.ndi, sameInst_refl13]
   same_symm := by
     intro x y hx hy h
     have hs := matchP_sid h
